@@ -33,11 +33,29 @@ def scanner_classes(crate, fn_path):
     if g is None:
         return None
     term, cont = set(), set()
+    structural = (g.self_ty or "").startswith(lex.SLICE_READ) or lex.SLICE_READ + "::" in fn_path
     for d in DOM:
-        S = lex.make_sim([crate], d)
         outs = set()
-        for p in S.run(g):
-            outs.add("consume" if lex.consumed(p) else "stop")
+        if structural:
+            # the slice reader is a plain (bytes, index) pair: run the scanner on `d )` resp. on no input at all and
+            # look at where the index ends up (any style of scanning loop, no reader model needed)
+            try:
+                _S, res = lex.slice_scan(crate, g, [d, 0x29] if d is not None else [])
+            except sim.Limit:
+                raise Inexact("%s: path limit on byte %s" % (fn_path, lex.fmt_bytes([d])))
+            if res is None:
+                raise Inexact("%s: SliceRead has an unexpected shape" % fn_path)
+            for p, ix in res:
+                if p.end == "panic":
+                    outs.add("panic")
+                elif ix is None:
+                    outs.add("?")
+                else:
+                    outs.add("consume" if ix >= 1 else "stop")
+        else:
+            S = lex.make_sim([crate], d)
+            for p in S.run(g):
+                outs.add("consume" if lex.consumed(p) else "stop")
         if outs == {"consume"}:
             cont.add(d)
         elif outs == {"stop"}:
